@@ -14,6 +14,7 @@ import (
 
 type omOp struct {
 	Op   string   `json:"op"`
+	On   int      `json:"on,omitempty"` // which live map the operation targets (derived maps stay alive next to their source)
 	Key  string   `json:"key,omitempty"`
 	Val  int      `json:"val,omitempty"`
 	Idx  int      `json:"idx,omitempty"`
@@ -90,7 +91,7 @@ func genOmCase(r *Rand) omCase {
 	kinds := []string{"set", "set", "set", "remove", "remove", "get", "has", "len", "at", "values", "iterate", "map", "filter", "sort", "equal", "frommap", "marshal", "unmarshal", "unmarshal_into", "iterate_re", "map_re", "filter_re"}
 	for i := 0; i < n; i++ {
 		k := Pick(r, kinds)
-		op := omOp{Op: k}
+		op := omOp{Op: k, On: r.Intn(3)}
 		switch k {
 		case "set":
 			op.Key, op.Val = Pick(r, keys), next()
@@ -238,11 +239,24 @@ func omObserve(m *orderedmap.Map[string, int], ref *omModel, strict bool) string
 func runOmCase(c omCase) (key, what string, step int, ex *Exec) {
 	step = -1
 	ex = Simulate(c.Sched, nil, 50_000_000, func() error {
-		m := orderedmap.New[string, int]()
-		ref := &omModel{}
+		// live maps: a derived map (Map, Filter) stays alive next to its source, and
+		// every later operation is followed by an observation of *all* of them, so
+		// that structure shared between a map and the map it was derived from shows
+		maps := []*orderedmap.Map[string, int]{orderedmap.New[string, int]()}
+		refs := []*omModel{{}}
 		strict := true
 		for i, op := range c.Ops {
 			step = i
+			ti := op.On % len(maps)
+			m, ref := maps[ti], refs[ti]
+			keep := func(nm *orderedmap.Map[string, int], nref *omModel) {
+				if len(maps) < 3 {
+					maps, refs = append(maps, nm), append(refs, nref)
+					return
+				}
+				j := (ti + 1) % len(maps)
+				maps[j], refs[j] = nm, nref
+			}
 			fail := func(obs, msg string) error {
 				key = op.Op + ":" + obs
 				what = fmt.Sprintf("step %d %s: %s", i, op.Op, msg)
@@ -290,7 +304,7 @@ func runOmCase(c omCase) (key, what string, step int, ex *Exec) {
 						return fail("derived", "Map result: "+d)
 					}
 				}
-				// the source must be untouched: checked by the observation below
+				keep(nm, nref)
 			case "filter":
 				nm := m.Filter(func(_ string, v int) bool { return v%op.Mod != 0 })
 				nref := &omModel{}
@@ -304,7 +318,7 @@ func runOmCase(c omCase) (key, what string, step int, ex *Exec) {
 						return fail("derived", "Filter result: "+d)
 					}
 				}
-				m, ref = nm, nref
+				keep(nm, nref)
 			case "sort":
 				less := func(a, b string) bool { return a < b }
 				if op.Desc {
@@ -335,7 +349,7 @@ func runOmCase(c omCase) (key, what string, step int, ex *Exec) {
 				if d := omObserve(nm, nref, true); d != "" {
 					return fail("derived", "FromMap result: "+d)
 				}
-				m, ref, strict = nm, nref, true
+				maps[ti], refs[ti], strict = nm, nref, true
 			case "unmarshal", "unmarshal_into":
 				doc := docJSON(op.Keys, op.Vals)
 				target := m
@@ -351,7 +365,7 @@ func runOmCase(c omCase) (key, what string, step int, ex *Exec) {
 				for j, k := range op.Keys {
 					tref.set(k, op.Vals[j])
 				}
-				m, ref = target, tref
+				maps[ti], refs[ti] = target, tref
 			case "iterate_re", "map_re", "filter_re":
 				// a callback that mutates the map being walked: the statement
 				// defines no semantics, only integrity is checked afterwards.
@@ -383,8 +397,13 @@ func runOmCase(c omCase) (key, what string, step int, ex *Exec) {
 					}
 				}
 			}
-			if d := omObserve(m, ref, strict); d != "" {
-				return fail("state", d)
+			for j := range maps {
+				if d := omObserve(maps[j], refs[j], strict); d != "" {
+					if j != op.On%len(maps) && op.Op != "frommap" && op.Op != "unmarshal" {
+						return fail("sibling-state", fmt.Sprintf("map #%d, which the operation did not target, changed: %s", j, d))
+					}
+					return fail("state", d)
+				}
 			}
 		}
 		return nil
